@@ -64,6 +64,8 @@ func generate(w *mon.W) {
 			p = summarizeThenNestedJoin(rng)
 		case 2:
 			p = distinctThenDuplicates(rng)
+		case 3:
+			p = namedThenNarrowed(rng)
 		}
 		c := &pipecheck.Case{Pipe: p}
 		for k := 0; k < nInst; k++ {
@@ -152,6 +154,51 @@ func distinctThenDuplicates(rng interface{ Intn(int) int }) *Pipe {
 	} else {
 		p.Ops = append(p.Ops, &Op{K: "join", Kind: kind, Right: right, Conds: []*E{Bin("==", Name("$left", "n"), Name("$right", "k"))}})
 	}
+	if rng.Intn(3) == 0 {
+		p.Ops = append(p.Ops, &Op{K: "count"})
+	}
+	return p
+}
+
+// namedThenNarrowed: a result is named by `as` and the very next operators
+// narrow or reorder the left side (take, top, sort + take, where, count,
+// summarize) before a join whose right-hand side reads the named result: the
+// name stands for the rows at the `as`, not for what follows it.
+func namedThenNarrowed(rng interface{ Intn(int) int }) *Pipe {
+	id := func(n string) *Ident { return &Ident{Name: n} }
+	p := &Pipe{Table: Ident{Name: "T"}}
+	switch rng.Intn(3) {
+	case 0:
+		p.Ops = append(p.Ops, &Op{K: "where", X: Bin(">=", Name("id"), Num("0"))})
+	case 1:
+		p.Ops = append(p.Ops, &Op{K: "project", Cols: []Col{{Name: id("id")}, {Name: id("k")}, {Name: id("j")}, {Name: id("ia")}}})
+	}
+	p.Ops = append(p.Ops, &Op{K: "as", Name: Ident{Name: "Named"}})
+	switch rng.Intn(6) {
+	case 0:
+		p.Ops = append(p.Ops, &Op{K: "take", X: Num([]string{"0", "1", "2"}[rng.Intn(3)])})
+	case 1:
+		p.Ops = append(p.Ops, &Op{K: "top", X: Num([]string{"1", "2"}[rng.Intn(2)]), Terms: []SortTerm{{X: Name("id"), Dir: []string{"", "asc"}[rng.Intn(2)]}}})
+	case 2:
+		p.Ops = append(p.Ops, &Op{K: "sort", Terms: []SortTerm{{X: Name("id"), Dir: "desc"}}}, &Op{K: "take", X: Num("1")})
+	case 3:
+		p.Ops = append(p.Ops, &Op{K: "sort", Terms: []SortTerm{{X: Name("k")}, {X: Name("id")}}})
+	case 4:
+		p.Ops = append(p.Ops, &Op{K: "where", X: Bin(">", Name("k"), Num("0"))})
+	default:
+		p.Ops = append(p.Ops, &Op{K: "summarize", Cols: []Col{{Name: id("ia"), X: Call("max", Name("ia"))}}, HasBy: true, By: []Col{{X: Name("k")}, {X: Name("j")}}})
+	}
+	right := &Pipe{Table: Ident{Name: "Named"}}
+	switch rng.Intn(3) {
+	case 0:
+		right.Ops = append(right.Ops, &Op{K: "project", Cols: []Col{{Name: id("rid"), X: Name("id")}, {Name: id("rk"), X: Name("k")}}})
+	case 1:
+		right.Ops = append(right.Ops, &Op{K: "project", Cols: []Col{{Name: id("rid"), X: Name("id")}, {Name: id("rk"), X: Name("j")}}}, &Op{K: "take", X: Num("100")})
+	default:
+		right.Ops = append(right.Ops, &Op{K: "summarize", Cols: []Col{{Name: id("rid"), X: Call("count")}}, HasBy: true, By: []Col{{Name: id("rk"), X: Name("k")}}})
+	}
+	kind := []string{"", "inner", "leftouter", "innerunique"}[rng.Intn(4)]
+	p.Ops = append(p.Ops, &Op{K: "join", Kind: kind, Right: right, Conds: []*E{Bin("==", Name("$left", "k"), Name("$right", "rk"))}})
 	if rng.Intn(3) == 0 {
 		p.Ops = append(p.Ops, &Op{K: "count"})
 	}
